@@ -1,0 +1,24 @@
+//go:build verif
+
+package fastcgi
+
+import "io"
+
+// Test-only exports for the /verif conformance harness (property C13). Add-only; nothing in
+// here changes the behaviour of the package.
+
+// VerifNewClient wraps an already connected transport the way DialWithDialerContext does.
+func VerifNewClient(rwc io.ReadWriteCloser) *FCGIClient {
+	return &FCGIClient{rwc: rwc, keepAlive: false, reqID: 1}
+}
+
+// VerifStderr returns what the client collected from the responder's stderr stream so far.
+func VerifStderr(c *FCGIClient) string { return c.stderr.String() }
+
+// VerifWritePairs runs the name/value encoder for one stream of the given record type.
+func VerifWritePairs(c *FCGIClient, recType uint8, pairs map[string]string) error {
+	return c.writePairs(recType, pairs)
+}
+
+// VerifMaxWrite is the record payload limit the stream writer uses.
+const VerifMaxWrite = maxWrite
